@@ -19,7 +19,10 @@
 #include "vclock.h"
 #include "lockrec.h"
 
-#define NEV 5
+#define NEV 13            /* slots: 1..5 = ids 1..5, 6..13 = extra timers with ids 11..18 */
+#define SLOT(id) ((id) <= 5 ? (id) : (id) - 5)
+#define EVID(slot) ((slot) <= 5 ? (slot) : (slot) + 5)
+static int nev = 5;       /* slots in use (5 + cfg.nx) */
 #define NW 3
 #define BASE_NS (1000LL * 1000000000LL)
 
@@ -84,7 +87,7 @@ static int n_once(void)
 static int script_legal(jval *op, int self)
 {
 	const char *a = j_str(op, "a", "none");
-	int e = (int)j_int(op, "e", 0);
+	int e = SLOT((int)j_int(op, "e", 0));
 	if (!strcmp(a, "none")) return 0;
 	if (!strcmp(a, "free"))
 		return alloc[e] && finreq[e] != 1 && finreq[e] != 2 && !(self == e && kind_sig(e));
@@ -105,9 +108,9 @@ static void run_script(int e)
 
 static void cb(evutil_socket_t fd, short what, void *arg)
 {
-	int e = (int)(intptr_t)arg;
+	int e = (int)(intptr_t)arg;      /* slot */
 	lockrec_cb_enter();
-	logcb(e, what, "cb");
+	logcb(EVID(e), what, "cb");
 	run_script(e);
 	lockrec_cb_exit();
 	if (ncblog >= 12 && base) { forced = 1; event_base_loopbreak(base); }
@@ -120,10 +123,10 @@ static void once_cb(evutil_socket_t fd, short what, void *arg)
 }
 static void fin_cb(struct event *e_, void *arg)
 {
-	int e = (int)(intptr_t)arg;
+	int e = (int)(intptr_t)arg;      /* slot */
 	lockrec_cb_enter();
 	lockrec_cb_exit();
-	logcb(e, 64, "fin");
+	logcb(EVID(e), 64, "fin");
 	if (finreq[e] == 2) { alloc[e] = 0; script[e] = NULL; finreq[e] = 0; } /* free_finalize: memory is released */
 	else finreq[e] = 3; /* finalizer has run; event_free is legal again */
 }
@@ -218,6 +221,7 @@ static struct event *mkevent(int e)
 	case 3: return event_new(base, -1, 0, cb, arg);
 	case 4: return event_new(base, -1, EV_PERSIST, cb, arg);
 	case 5: return event_new(base, SIGUSR1, EV_SIGNAL | EV_PERSIST, cb, arg);
+	default: if (e > 5 && e <= NEV) return event_new(base, -1, 0, cb, arg);
 	}
 	return NULL;
 }
@@ -236,6 +240,7 @@ static int exec_op_inner(jval *op, int incb)
 {
 	const char *a = j_str(op, "a", "none");
 	int e = (int)j_int(op, "e", 0);
+	if (strncmp(a, "w", 1)) e = SLOT(e);   /* watcher ops carry a watcher id, not an event id */
 	struct timeval tv;
 	if (!strcmp(a, "none")) return 0;
 	if (!strcmp(a, "allocfail")) { af_countdown = j_int(op, "n", 0); return 0; }
@@ -332,7 +337,7 @@ static void print_obs(int r, int is_loop)
 	int i;
 	fprintf(out, "{\"r\":%d,\"p\":[", r);
 	long long dl[NEV + 1];
-	for (i = 1; i <= NEV; i++) {
+	for (i = 1; i <= nev; i++) {
 		int p = -1;
 		dl[i] = -1;
 		if (alloc[i]) {
@@ -352,9 +357,9 @@ static void print_obs(int r, int is_loop)
 		fprintf(out, "%s%d", i > 1 ? "," : "", p);
 	}
 	fprintf(out, "],\"d\":[");
-	for (i = 1; i <= NEV; i++) fprintf(out, "%s%lld", i > 1 ? "," : "", dl[i]);
+	for (i = 1; i <= nev; i++) fprintf(out, "%s%lld", i > 1 ? "," : "", dl[i]);
 	fprintf(out, "],\"pr\":[");
-	for (i = 1; i <= NEV; i++) fprintf(out, "%s%d", i > 1 ? "," : "", alloc[i] ? event_get_priority(ev[i]) : -1);
+	for (i = 1; i <= nev; i++) fprintf(out, "%s%d", i > 1 ? "," : "", alloc[i] ? event_get_priority(ev[i]) : -1);
 	{
 		int na = event_base_get_num_events(base, EVENT_BASE_COUNT_ACTIVE);
 		int ne = event_base_get_num_events(base, EVENT_BASE_COUNT_ADDED);
@@ -386,6 +391,8 @@ static void run_scenario(jval *sc)
 	lockrec_reset(j_str(cfg, "sid", "0"));
 	af_total = 0;
 	af_countdown = j_int(cfg, "allocfail0", 0);   /* fail the n-th allocation counted from base creation */
+	nev = 5 + (int)j_int(cfg, "nx", 0);
+	if (nev > NEV) nev = NEV;
 	tick_ns = j_int(cfg, "tick_ns", 1000);
 	nprio = (int)j_int(cfg, "nprio", 3);
 	maxiter = (int)j_int(cfg, "maxiter", 4);
@@ -427,7 +434,7 @@ static void run_scenario(jval *sc)
 	}
 	pre = j_get(cfg, "prealloc");
 	for (k = 0; pre && k < pre->n; k++) {
-		int e = (int)pre->items[k]->i;
+		int e = SLOT((int)pre->items[k]->i);
 		ev[e] = mkevent(e); alloc[e] = ev[e] != NULL;
 	}
 	fprintf(out, "{\"obs\":[");
